@@ -1292,7 +1292,7 @@ def theory_BER(
         S_ase_ase = mu_ASE**2 * (1 - l/2) * l                                               # ase-ase beating noise variance, in [V^2]
 
         S_th = 4 * kB * T * BW_el * R_L * nf_el                  # thermal noise variance, in [V^2]
-        S_sh_i = 2 * e * np.array([mu_OFF, mu_ON]) * BW_el       # shot noise variance, in [V^2]
+        S_sh_i = 2 * e * np.array([mu_OFF, mu_ON]) * BW_el * R_L # shot noise variance, in [V^2]
         
         s = (S_th + S_sig_ase_i + S_ase_ase + S_sh_i)**0.5   # santandar desviation of ON and OFF slots
 
